@@ -25,7 +25,7 @@ ASSUMPTIONS = [
     'an empty string in a string field is the same as null (schema missingValues [""] - the rule the dumper itself applies)',
     'JSON format: numbers compared at double precision; custom strftime formats only with years >= 1000',
 ]
-BUDGET = {'quick': dict(examples=1000, shards=8, seconds=75),
+BUDGET = {'quick': dict(examples=2000, shards=16, seconds=75),
           'thorough': dict(examples=60000, shards=16, seconds=1200)}
 
 
